@@ -299,7 +299,8 @@ fn request_from(src: IpAddr, dst: SocketAddr, bytes: &[u8]) -> Result<Vec<u8>, S
         }
         if libc::connect(fd, ptr, len) != 0 {
             libc::close(fd);
-            return Err(format!("connect {} -> {} failed", src, dst));
+            let e = std::io::Error::last_os_error();
+            return Err(format!("connect {} -> {} failed: {}", src, dst, e));
         }
         TcpStream::from_raw_fd(fd)
     };
@@ -361,7 +362,8 @@ fn end_to_end(ctx: &Ctx) {
             }
             std::fs::write(tmp.0.join("blacklist.txt"), list.iter().map(|a| a.to_string()).collect::<Vec<_>>().join("\n")).unwrap();
             let bind_ip = if v6 { "::1".to_string() } else { "127.0.0.1".to_string() };
-            let port = crate::common::net::free_port(&bind_ip);
+            // every server of this run gets its own port: two shards must never end up probing each other's server
+            let port = crate::common::net::reserved_port(&bind_ip);
             let conf = format!(
                 "server {{\n  address \"{}\"\n  port {}\n  threads 4\n  timeout 5\n  blacklist {{\n    file \"{}\"\n    mode \"{}\"\n  }}\n  log {{\n    level \"error\"\n    console false\n  }}\n  cache {{\n    size {}\n    time 60\n  }}\n  route /file {{\n    file \"{}\"\n  }}\n  route /static/* {{\n    directory \"{}\"\n  }}\n  route /old {{\n    redirect \"/new-location\"\n  }}\n  route /api/* {{\n    proxy \"{}\"\n  }}\n}}\n",
                 bind_ip,
@@ -375,7 +377,7 @@ fn end_to_end(ctx: &Ctx) {
             );
             let conf_path = tmp.0.join("humphrey.conf");
             std::fs::write(&conf_path, &conf).unwrap();
-            let child = std::process::Command::new(&bin).arg(&conf_path).current_dir(&tmp.0).stdout(std::process::Stdio::null()).stderr(std::process::Stdio::null()).spawn();
+            let child = std::process::Command::new(&bin).arg(&conf_path).current_dir(&tmp.0).stdout(std::process::Stdio::null()).stderr(if std::env::var("HV_DEBUG").is_ok() { std::process::Stdio::inherit() } else { std::process::Stdio::null() }).spawn();
             let child = match child {
                 Ok(c) => c,
                 Err(e) => {
@@ -384,7 +386,7 @@ fn end_to_end(ctx: &Ctx) {
                 }
             };
             let addr: SocketAddr = if v6 { format!("[::1]:{}", port).parse().unwrap() } else { format!("127.0.0.1:{}", port).parse().unwrap() };
-            let server = Server { child, addr };
+            let mut server = Server { child, addr };
             // wait for it to listen (probe from a source that is certainly unlisted in v4; in v6 the only source may be listed: probe anyway)
             let t0 = Instant::now();
             let mut up = false;
@@ -437,12 +439,33 @@ fn end_to_end(ctx: &Ctx) {
                 }
                 ctx.case(hash_of(&(k, q, &req, src)), !xff_addrs.is_empty() || v6 || cache, &labels);
                 ctx.sample(labels.last().unwrap(), || json!({"mode": if forbidden { "forbidden" } else { "block" }, "blacklist": list.iter().map(|a| a.to_string()).collect::<Vec<_>>(), "source": src.to_string(), "request": show(req.as_bytes())}));
-                let resp = match request_from(src, server.addr, req.as_bytes()) {
-                    Ok(r) => r,
-                    Err(e) => {
-                        ctx.inconclusive(&format!("e2e client: {}", e));
-                        continue;
+                // With thousands of loopback connections in TIME_WAIT the kernel now and then resets or refuses a fresh
+                // connection although the server is listening (observed: ECONNREFUSED with the listener shown by `ss`). Where a
+                // normal answer is expected, an empty result is therefore retried on a new connection; a server that really does
+                // not serve the request fails every attempt.
+                let expect_answer = !(peer_listed && !forbidden);
+                let mut attempt = 0;
+                let resp = loop {
+                    attempt += 1;
+                    match request_from(src, server.addr, req.as_bytes()) {
+                        Ok(r) if r.is_empty() && expect_answer && attempt < 4 => {
+                            ctx.label("e2e:empty-answer-retried", 1);
+                            std::thread::sleep(Duration::from_millis(20 * attempt));
+                        }
+                        Ok(r) => break Some(r),
+                        Err(_) if attempt < 4 => {
+                            ctx.label("e2e:connect-retried", 1);
+                            std::thread::sleep(Duration::from_millis(20 * attempt));
+                        }
+                        Err(e) => {
+                            ctx.inconclusive(&format!("e2e client: {} (server process: {:?})", e, server.child.try_wait()));
+                            break None;
+                        }
                     }
+                };
+                let resp = match resp {
+                    Some(r) => r,
+                    None => continue,
                 };
                 let text = String::from_utf8_lossy(&resp).to_string();
                 let status: u16 = text.split(' ').nth(1).and_then(|s| s.parse().ok()).unwrap_or(0);
